@@ -62,6 +62,10 @@ class _OldRewriter(ast.NodeTransformer):
 
     def visit_Call(self, node):
         self.generic_visit(node)
+        if isinstance(node.func, ast.Name) and node.func.id == 'implies' and len(node.args) == 2:
+            # implication is lazy in the specification language (the consequent may be undefined when the antecedent is
+            # false, e.g. an index outside a list): evaluate it with Python's short-circuit `or`
+            return ast.BoolOp(op=ast.Or(), values=[ast.UnaryOp(op=ast.Not(), operand=node.args[0]), node.args[1]])
         if isinstance(node.func, ast.Name) and node.func.id == 'old':
             self.olds.append(node.args[0])
             return ast.Subscript(value=ast.Name(id='__old__', ctx=ast.Load()), slice=ast.Constant(len(self.olds) - 1), ctx=ast.Load())
@@ -236,7 +240,9 @@ def run(path):
                 if not native_eval(src, env, pre_env):
                     bad.append('ensures(%s) is false; result=%r' % (src, env['result'] if not isinstance(env['result'], bytes) else env['result'][:40]))
             except Exception as e:
-                bad.append('ensures(%s) raised %r' % (src, e))
+                # the NATIVE evaluator could not evaluate the clause: a limit of the harness, never a verdict
+                print('replay harness: ensures(%s) could not be evaluated natively: %r' % (src[:120], e))
+                return 2
     if bad:
         print('REPRODUCED on the real code (%s): %s' % (target, ' | '.join(bad)[:600]))
         return 1
